@@ -173,9 +173,11 @@ def run_case(case):
     tol = 1e-12
 
     def eq(res, exp, what, op, scale=None):
-        exp = np.asarray(exp, float)
+        exp = np.asarray(exp)
+        exp = exp.astype(complex) if np.iscomplexobj(exp) else exp.astype(float)
         sc = max(1.0, float(np.max(np.abs(exp))) if exp.size else 1.0) if scale is None else scale
-        got = np.asarray(res.values, float)
+        got = np.asarray(res.values)
+        got = got.astype(complex) if (np.iscomplexobj(got) or np.iscomplexobj(exp)) else got.astype(float)
         if not v.check(got.shape == exp.shape, "one value per time sample", op=op, nvalues=int(got.size), expected=int(exp.size), history=hist[-4:]):
             return
         v.close(what, float(np.max(np.abs(got - exp))) if exp.size else 0.0, tol * sc * 100, op=op, history=hist[-4:])
@@ -332,6 +334,9 @@ def run_case(case):
                 nv = int(rng.integers(0, 2 * N + 2))
                 ints = bool(rng.random() < 0.2)
                 vals = rng.integers(-5, 5, size=nv) if ints else rng.normal(size=nv)
+                if rng.random() < 0.2:
+                    vals = vals + 1j * rng.normal(size=nv)          # complex samples (a spectrum-like quantity kept in a Signal)
+                    hist[-1] += "[complex]"
                 tt = off + np.arange(N) * dt
                 as_list = bool(rng.random() < 0.3)
                 res = Signal(tt.tolist() if as_list else tt, vals.tolist() if as_list else vals, str(rng.choice(types)))
